@@ -190,13 +190,35 @@ class Exit:
         return '<Exit %s %s>' % (self.kind, show(self.value) if self.value is not None else '')
 
 
+_KNOWN = None
+
+
+def known_functions():
+    """Qualified names of the functions of the pinned tree (fixtures/pinned), parsed once."""
+    global _KNOWN
+    if _KNOWN is None:
+        import os
+        from .model import Program
+        root = os.path.join(os.path.dirname(os.path.dirname(os.path.abspath(__file__))), 'fixtures', 'pinned')
+        try:
+            _KNOWN = set(Program(root).funcs)
+        except Exception:
+            _KNOWN = set()
+    return _KNOWN
+
+
 class Evaluator:
     """Evaluate one function of the program model along all its paths."""
 
     def __init__(self, program, inline=None, max_paths=4096, max_depth=3, fill_defaults=True,
                  callee_hook=None, observer=None):
         self.P = program
-        self.inline = inline or (lambda qualname, depth: False)
+        # Helper functions that did not exist when the rules were written (extracted by a refactoring) are inlined,
+        # so that extracting a helper does not blind a rule; the functions the rules know (the pinned tree's
+        # functions) stay opaque atoms unless a rule asks for them.
+        known = known_functions()
+        user_inline = inline
+        self.inline = (lambda q, depth: (q not in known) or bool(user_inline and user_inline(q, depth)))
         self.max_paths = max_paths
         self.max_depth = max_depth
         self.fill_defaults = fill_defaults
@@ -906,7 +928,8 @@ class Evaluator:
                 return [(S('closure:' + e.id), st, 'ok')]
             d = self.P.resolve(mod, e, None)
             if d is not None:
-                return [(('ref', d), st, 'ok')]
+                t = self._module_literal(d)
+                return [((t if t is not None else ('ref', d)), st, 'ok')]
             return [(S('global:' + e.id), st, 'ok')]
         if isinstance(e, ast.Attribute):
             key = _lvalue_key(e)
@@ -990,6 +1013,33 @@ class Evaluator:
                     s2.env[e.target.id] = t
             return outs
         raise AnalysisError('unsupported expression %s' % type(e).__name__, node=e)
+
+    def _module_literal(self, dotted):
+        """Value term of a module-level constant table (tuple/list/dict literal of constants and function
+        references), e.g. a dispatch table introduced by a refactoring; None for anything else."""
+        cache = self.__dict__.setdefault('_modlit', {})
+        if dotted in cache:
+            return cache[dotted]
+        cache[dotted] = None
+        parts = dotted.split('.')
+        mname, name = '.'.join(parts[:-1]), parts[-1]
+        m = self.P.modules.get(mname)
+        if m is None or name not in m.assigns:
+            return None
+        node = m.assigns[name]
+        if not isinstance(node, (ast.Tuple, ast.List, ast.Dict)):
+            return None
+        for n in ast.walk(node):
+            if not isinstance(n, (ast.Tuple, ast.List, ast.Dict, ast.Constant, ast.Name, ast.Attribute, ast.Load,
+                                  ast.UnaryOp, ast.USub)):
+                return None
+        try:
+            outs = self._ev(node, State(), m, None, self.max_depth)
+        except AnalysisError:
+            return None
+        if len(outs) == 1 and outs[0][2] == 'ok':
+            cache[dotted] = outs[0][0]
+        return cache[dotted]
 
     def _ev_n(self, exprs, st, mod, fi, depth, mk):
         """Evaluate several sub-expressions left to right, combine with mk."""
@@ -1118,10 +1168,13 @@ class Evaluator:
             return [(t, st, 'ok')]
         if callee is None or callee.kind == 'unknown':
             self.stats['calls_unresolved'] += 1
-            if bt is not None and bt[0] == 'func' and bt[1] in self.P.funcs:
-                callee = type('X', (), {})()
+            if bt is not None and bt[0] in ('func', 'ref') and bt[1] in self.P.funcs:
+                # a function value (nested def, or a repo function passed as an argument) called through a variable
                 from .model import Callee
                 callee = Callee('repo', bt[1], self.P.funcs[bt[1]])
+            elif bt is not None and bt[0] == 'ref' and not bt[1].startswith('emd.'):
+                # a library function passed as a value
+                return [(('call', bt[1], tuple(pos), tuple(sorted(kws, key=lambda x: x[0]))), st, 'ok')]
             elif bt is not None:
                 return [(('callv', bt, tuple(pos), tuple(sorted(kws, key=lambda x: x[0]))), st, 'ok')]
             else:
